@@ -16,3 +16,24 @@ package jsonapi
 //@ flag assumed
 //@ modifies elems[string](x)
 //@ ensures sorted: forall i int, j int :: 0 <= i && i <= j && j < len(x) ==> x[i] <= x[j]
+
+//@ func strings.Split
+//@ flag assumed
+//@ modifies new[string]
+//@ ensures fresh: fresh(result) && len(result) >= 1
+
+//@ func url.URL.Query
+//@ flag assumed
+//@ modifies new[map[string][]string], new[[]string], new[string]
+//@ ensures fresh: result != nil && fresh(result)
+//@ ensures non-empty-lists: forall k string :: k in result ==> len(result[k]) >= 1
+
+//@ func url.Values.Get
+//@ flag assumed
+//@ ensures first: key in v && len(v[key]) > 0 ==> result == v[key][0]
+//@ ensures missing: !(key in v && len(v[key]) > 0) ==> result == ""
+
+//@ func url.Parse
+//@ flag assumed
+//@ modifies new[url.URL]
+//@ ensures ok: result1 == nil ==> result0 != nil && fresh(result0)
